@@ -92,3 +92,24 @@ Definition ident_test (st : store) (identifier : ident) (c : nat) : res bool :=
       | IName s => str_eqb (c_name cell) s
       | IClass cls => isinstance (c_kind cell) cls
       end).
+
+(* ---------- Tree.__init__ / Tree.clear ---------- *)
+
+(* the Tree object before __init__ has run *)
+Definition t_empty : tree := mktree [] 0 [].
+(* self.outmost = x ; self.stack = deque() / self.stack.clear() *)
+Definition set_outmost (t : tree) (x : nat) : tree := mktree (t_cells t) x (t_stack t).
+Definition set_stack (t : tree) (s : list nat) : tree := mktree (t_cells t) (t_outmost t) s.
+(* entry of Tree.clear(): the method overwrites self.outmost and empties self.stack (checked by the
+   generator), so no object allocated so far stays reachable from the Tree; ids restart at 0 *)
+Definition t_forget (t : tree) : tree := mktree [] 0 (t_stack t).
+
+(* ---------- class Attribute(dict) ---------- *)
+
+(* dict.get(key, default) *)
+Definition py_get (d : attrs) (k : str) (default : option str) : option str :=
+  match dict_get d k with Some v => v | None => default end.
+(* x or d   for x : str | None *)
+Definition ostr_or (x : option str) (d : str) : str :=
+  match x with Some s => if truthy s then s else d | None => d end.
+
